@@ -36,7 +36,7 @@ pub const PROPS: &[PropSpec] = &[
         rule: "non-trivial: an unsubscribe() call overlapped a pipeline instance or a dispatch, or a subscriber was still registered at shutdown" },
     PropSpec { id: "C10", families: &[("sub", 10)], borrowed: &[], quick_runs: 96_000,
         rule: "non-trivial: a channeled subscriber received >=1 notification and its queue was full at least once or it was unsubscribed/stopped with items queued" },
-    PropSpec { id: "C11", families: &[("eff", 7), ("stop", 3)], borrowed: &[], quick_runs: 96_000,
+    PropSpec { id: "C11", families: &[("eff", 7), ("stop", 3)], borrowed: &[("C13", "eff")], quick_runs: 96_000,
         rule: "non-trivial: >=1 effect ran while the reducer thread was inside a later pipeline, or stop() was invoked with effects outstanding" },
     PropSpec { id: "C12", families: &[("mw", 10)], borrowed: &[("C01", "mw"), ("C03", "mw"), ("C07", "mw")], quick_runs: 96_000,
         rule: "non-trivial: some hook returned a verdict other than Continue" },
